@@ -564,10 +564,12 @@ VSsetclass(int32       vkey, /* IN: vdata key */
     if (NULL == (w = (vsinstance_t *)HAatom_object(vkey)))
         HGOTO_ERROR(DFE_NOVS, FAIL);
 
-    /* get vdata itself and check it */
+    /* get vdata itself and check it; its class is changed through a write attachment */
     vs = w->vs;
     if (vs == NULL)
         HGOTO_ERROR(DFE_BADPTR, FAIL);
+    if (vs->access != 'w')
+        HGOTO_ERROR(DFE_BADACC, FAIL);
 
     /* get current length of vdata class name */
     curr_len = (int)strlen(vs->vsclass);
